@@ -1093,6 +1093,8 @@ class Expression(Expr):
                 return
 
             if value is None:
+                if index < 0:
+                    index += len(expressions)
                 expressions.pop(index)
                 for v in expressions[index:]:
                     v.index = v.index - 1
